@@ -32,5 +32,7 @@ for rec in log:
 for k, v in h.most_common(40):
   print('%8d %s' % (v, k))
 res.pop('plan', None); sch = res.pop('schedule', None)
+if os.environ.get('DBG_OUT'):
+  json.dump(res, open(os.environ['DBG_OUT'], 'w'))
 print(json.dumps(res, indent=1)[:3000])
 shutil.rmtree(scratch, ignore_errors=True)
